@@ -198,7 +198,13 @@ def check_incoming(acc, kit, name, cls, tree, sel, with_enc, w):
     n = acc.counters.get("incoming_cases", 0)
     if n % 9 == 0 and tree[3] is None:
         how = (n // 9) % 3
-        t2 = (tree[0], dict(tree[1], **({"verif-new-attr": "1"} if how in (0, 2) else {})), list(tree[2]) + ([("verif-new-child", {"k": "v"}, [], None)] if how in (1, 2) else []), None)
+        extra = [("verif-new-child", {"k": "v"}, [], None)] if how in (1, 2) else []
+        # (in front of the known children only for notifications: the server-driven, extensible part of the protocol, whose
+        # handlers look their children up by name; elsewhere the position of the one child is part of the stanza's shape)
+        front = (n // 27) % 2 == 0 and tree[0] == "notification"
+        t2 = (tree[0], dict(tree[1], **({"verif-new-attr": "1"} if how in (0, 2) else {})), (extra + list(tree[2])) if front else (list(tree[2]) + extra), None)
+        if extra:
+            acc.count("incoming_newer_shape:child-%s" % ("first" if front else "last"))
         acc.count("incoming_newer_shape")
         kit.clear()
         try:
